@@ -11,7 +11,7 @@ use spl_frontend::{
         Statement, TypeExpression, Variable, VariableDeclaration,
     },
     table::{Entry, GlobalEntry, GlobalTable, LookupTable},
-    Shiftable, ToRange, ToTextRange,
+    Shiftable, ToRange,
 };
 use std::collections::HashMap;
 use tokio::sync::mpsc::Sender;
@@ -37,7 +37,9 @@ pub async fn rename(
                 let text_edits = idents
                     .into_iter()
                     .map(|identifier| {
-                        Ident::from_identifier(&identifier, identifier.to_text_range(&doc.tokens))
+                        // the identifier is the last token in the range (which might contain comments)
+                        let text_range = doc.tokens[identifier.to_range().end - 1].range.clone();
+                        Ident::from_identifier(&identifier, text_range)
                     })
                     .map(|ident| TextEdit {
                         range: as_pos_range(&ident.to_range(), &doc.text),
@@ -86,7 +88,9 @@ pub async fn find(
                 let references = identifiers
                     .into_iter()
                     .map(|identifier| {
-                        Ident::from_identifier(&identifier, identifier.to_text_range(&doc.tokens))
+                        // the identifier is the last token in the range (which might contain comments)
+                        let text_range = doc.tokens[identifier.to_range().end - 1].range.clone();
+                        Ident::from_identifier(&identifier, text_range)
                     })
                     .filter(|i| i != ident)
                     .map(|i| Location {
